@@ -6,7 +6,7 @@ import vlib, http_common
 
 # C20Src: the body of Authorizer::authenticate_request regenerated from the source (pure_fns) = the model chain
 MODULES = ["KrillModel.Props.C20", "KrillModel.Props.C20Src"]
-TABLES = [("permissions", "Perm.lean"), ("routes", "Routes.lean"), ("pure_fns:C20", "PureFns.lean")]
+TABLES = [("permissions", "Perm.lean"), ("routes", "Routes.lean"), ("pure_fns:C20", "PureFnsC20.lean")]
 
 RULE = ("stream http: real logins at the real daemon (config-file provider, scrypt), then per valid token: every truncation "
         "length, single-bit flips of the base64 text (quick: seeded sample, thorough: all), non-canonical base64 (unused "
